@@ -6,7 +6,7 @@
 
    Source.v models the io.Reader contract and io.ReadFull; Lexer.v is the lexer model (it reads only
    through ReadFull).  All proofs live in theories/Source.v and theories/LexerFactsA.v. *)
-From Mcap Require ConstsTie LayoutTie. (* regenerated ties to /repo's source that this property's model relies on *)
+From Mcap Require ConstsTie LayoutTie DecisionTieL. (* regenerated ties to /repo's source that this property's model relies on *)
 From Coq Require Import List NArith ZArith Bool Lia.
 From Coq.Strings Require Import Byte.
 From Mcap Require Import Bytes GoSem Crc32 Records Lexer Source LexerFactsA.
